@@ -41,12 +41,20 @@ def main():
                           "start / duration transitions with within-epoch time 0..d-1 and continuing global time / end / tune iff adaptation (with that epoch's recorded history on request) / "
                           "exactly one end_warmup immediately before the first posterior epoch",
                           timeout_s=600 if chk.tier == "quick" else 1200, env={"TYPES": ts, "NK": "2", "NH": nh, "STORE": str(store), "UPFRONT": str(up)}, signature=f"lifecycle:{ts}"))
+    # the fake environment is validated on every run against the real Engine on real JAX (jit disabled) on three fixed schedules
+    from ..ch import validate_fake
+    ok, msg, n = validate_fake.compare()
+    chk.extra["fake_environment_validation"] = dict(ok=ok, message=msg, compared_calls=n, schedules=[str(s_) for s_ in validate_fake.SCHEDULES])
+    chk.extra["traces_validated_against_impl"] = 3 if ok else 0
+    if not ok:
+        chk.harness_error("fake-environment", "fake environment disagrees with real JAX: " + msg)
     run_conditions(chk, conds)
     chk.functions += ["liesel.goose.engine.Engine.__init__/sample_all_epochs/sample_next_epoch/append_epoch/_start_epoch/_kernel_start_epoch/_sample_for_duration/_sample_many/_end_epoch/_tune_kernels/_end_warmup/_split_prng_key",
                       "liesel.goose.kernel_sequence.KernelSequence.*", "liesel.goose.epoch.EpochManager/EpochState", "liesel.goose.kernel.TransitionMixin.transition / TuningMixin.tune",
                       "liesel.goose.chain.EpochChainManager/ListEpochChain (history handed to tune)"]
     chk.bounds += ["3 epochs after the initial one; symbolic durations <= 2,2,3 (thorough: 3,3,4), thinning <= duration, chunk <= 2 (thorough 3) dividing all durations", "2 kernels; per-kernel needs_history, store_kernel_states and the number of epochs configured up-front (others appended one at a time after sampling started) enumerated per condition", "one representative chain (vmap = identity)"]
     chk.enumerated += [f"epoch types INITIAL,{','.join(map(str, s))} needs_history={nh} store_kernel_states={st} upfront={up}" for s, nh, st, up in pl]
-    chk.assume("fake environment contracts: vmap(f)=f on one chain, jit(f)=f, lax.scan = loop + stacking, lax.cond = if, random.split = free-algebra key terms, expand_dims/concatenate on per-time cell lists, np.arange/% /== /mask indexing on integer lists",
+    chk.assume("the fake environment is compared on every run with the real Engine on real JAX (jit disabled) on three fixed schedules: call logs, history lengths and stored chains must be identical",
+               "fake environment contracts: vmap(f)=f on one chain, jit(f)=f, lax.scan = loop + stacking, lax.cond = if, random.split = free-algebra key terms, expand_dims/concatenate on per-time cell lists, np.arange/% /== /mask indexing on integer lists",
                "what kernels that do not ask for history receive is left unconstrained when another kernel asks (the engine hands the same history to every kernel)")
     return chk.finish(technique=TECH)
